@@ -255,7 +255,7 @@ def c37_parallel(viol, inp, param):
 def c40_reconnect(viol, inp, param):
     if viol["aspect"] != "connection-id-after-the-edit-differs-from-the-predicted-one":
         return False
-    op, before, actual, predicted = json.loads(viol["detail"])
+    op, before, actual, predicted = json.loads(viol["detail"])[:4]
     return op == "reconnect" and actual != predicted and _strip_index(actual) == _strip_index(predicted)
 
 
@@ -263,7 +263,7 @@ def c40_reconnect(viol, inp, param):
 def c40_rename_collision(viol, inp, param):
     d = json.loads(viol["detail"])
     if viol["aspect"] in ("object-id-after-the-edit-differs-from-the-predicted-one", "connection-id-after-the-edit-differs-from-the-predicted-one"):
-        op, before, actual, predicted = d
+        op, before, actual, predicted = d[:4]
         unq = lambda x: x.replace("'", "").replace('"', "")
         return op == "rename" and unq(re.sub(r" \d+", "", actual)) == unq(predicted)
     if viol["aspect"] == "renamed-object-has-not-the-requested-name":
@@ -291,7 +291,10 @@ def c41_move_inherited(viol, inp, param):
     op, board, changed, ok, inherited = json.loads(viol["detail"])
     # the edit is addressed to a scenario/step and its target (or, for a move, the destination container) is an
     # element the scenario inherits from the base board
-    return ok == 1 and len(board) > 0 and board[0] in ("s1", "s2") and inherited == 1
+    # observed on the unchanged tree for exactly these operations; Rename, ReconnectEdge, Create and deleting or
+    # restyling a connection never leak (a Rename or Move of an inherited object itself is refused)
+    leaking = ("delete", "delete-attr", "delete-edge-attr", "move", "set-attr", "set-label", "set-shape", "set-style")
+    return ok == 1 and len(board) > 0 and board[0] in ("s1", "s2") and inherited == 1 and op in leaking
 
 
 # ---- parser positions (C02) --------------------------------------------------------------------------
@@ -354,3 +357,25 @@ def c02_unquoted_dash_end(viol, inp, param):
     m = re.match(r'^"(.*)" covers "(.*)"$', d, re.S)
     # a key that ends on a dash right before a line end or bracket: the dash is in the value, not in the range
     return bool(m) and m.group(1) == m.group(2) + "-"
+
+
+# ---- Move into a container that is declared only through flat keys (KF-C39-2) ----------------------
+@classifier("c39_move_into_container_declared_only_by_the_moved_key")
+def c39_move_flat_parent(viol, inp, param):
+    d = json.loads(viol["detail"])
+    if viol["aspect"] == "moved-object-is-not-in-the-requested-container":
+        dest, got_parent, want_parent = d
+        return want_parent.startswith("id:")
+    if viol["aspect"] in ("object-id-after-the-edit-differs-from-the-predicted-one", "connection-id-after-the-edit-differs-from-the-predicted-one"):
+        return d[0] == "move" and len(d) > 4 and d[4].startswith("id:")
+    return False
+
+
+@classifier("witness_oracle")
+def witness_oracle(viol, inp, param):
+    """an edit-history finding identified by its specific input: param = gen:seed:boards:aspect-prefix"""
+    gen, seed, boards, aspect = param.split(":")
+    if gen == "script":   # a written history of harness/cmd/vdrive/oraclescripts.go, by its 1-based number
+        return str(inp.get("script", 0)) == seed and viol["aspect"].startswith(aspect)
+    return (not inp.get("script") and str(inp.get("gen", 1)) == gen and str(inp.get("seed")) == seed and str(int(bool(inp.get("boards")))) == boards
+            and viol["aspect"].startswith(aspect))
